@@ -9,6 +9,7 @@ import numpy as np
 
 from vp import gen, probe, refmodels as rm
 from vp import defaults
+from vp import reuse
 
 RULE = ('seeded generator: planes with amplitude/OPD each scalar or 2-D, mask None/2-D/3-D (disjoint segments), '
         'arrays 3..20 per side; wavefronts reached by chains of 1..3 planes and propagations (1..8 overlapping or '
@@ -365,6 +366,7 @@ def many_fields(ctx, lentil, rng):
 
 def workload(ctx, lentil):
     defaults.run(ctx, lentil, 'C07', 'multiply=phasor')
+    reuse.run(ctx, lentil, 'C07', 'multiply=phasor')
     rng = ctx.rng
     if ctx.shard % 4 == 0:
         many_fields(ctx, lentil, rng)
